@@ -44,6 +44,8 @@ func childExtra(r *mon.Run, out *childOut) {
 	largeGroups(r, out)
 	nameSpellings(r, out)
 	deadlines(r, out)
+	addressForms(r, out)
+	zeroTTL(r, out)
 	cleanExact(r, out)
 	sweepsAgainstReRegistration(r, out)
 }
